@@ -2510,6 +2510,34 @@ def do_setup():
     return 0
 
 
+def do_replay(path, tier):
+    """replay file of a violation -> the scenario it names is run again (the owning check generates its scenarios
+    deterministically from VERIF_SEED, so the check is run again and its findings are compared by key): exit 1 and the VIOLATION
+    line if the same key is found again, exit 0 if not"""
+    import subprocess
+    if not path or not os.path.exists(path):
+        print("replay: no such file %s" % path)
+        return 2
+    d = json.load(open(path))
+    prop, key = d.get("property"), d.get("key")
+    if prop not in CHECKS:
+        print("replay: file names no known property")
+        return 2
+    print("replay: %s  key: %s" % (prop, key))
+    p = subprocess.run([sys.executable, os.path.abspath(__file__), prop, "--tier", tier], stdout=subprocess.PIPE, stderr=subprocess.STDOUT, text=True)
+    lines = p.stdout.splitlines()
+    for i, l in enumerate(lines):
+        if l.strip() == "key: %s" % key and i > 0 and lines[i - 1].startswith("VIOLATION"):
+            print(lines[i - 1])
+            print(l)
+            return 1
+    if p.returncode == 2:
+        print(p.stdout[-2000:])
+        return 2
+    print("replay: not reproduced on the current tree (%d other finding(s))" % sum(1 for l in lines if l.startswith("VIOLATION")))
+    return 0
+
+
 def main():
     os.makedirs(WORK, exist_ok=True)
     ap = argparse.ArgumentParser()
@@ -2522,6 +2550,8 @@ def main():
             return do_setup()
         if a.what == "selftest":
             return do_selftest()
+        if a.what == "replay":
+            return do_replay(a.path, a.tier)
         if a.what in CHECKS:
             return CHECKS[a.what](a.what, a.tier)
         print("unknown check %s" % a.what)
